@@ -36,6 +36,10 @@ func init() {
 			"(loop.* and srv.* sites) with that visit parked until everything else is blocked (pairs of visits in thorough on scripts <=3). " +
 			"E3: seeded longer scripts (6-10 events, racing pairs of events without a settle in between, random park probability). " +
 			"N: NetAccepter over an in-memory net.Listener/net.Pipe (cancel, listener closed, listener error; 0-2 connections; every single hook visit parked). " +
+			"N/ctx: the context ends while Loop is not blocked inside NetAccepter.Accept - already ended before Loop is called (0-2 connections waiting in the listener's backlog), or cancelled by the listener " +
+			"at the very moment its Accept hands a connection back (0-2 live servers, 0-1 further connections in the backlog, Assigner of the accepted connection failing or not) - natural schedule repeated 3 (20) times " +
+			"(NetAccepter's select between 'context ended' and 'Accept returned' is a coin toss) and every single hook visit parked: Loop returns nil, the listener was closed, one fresh service per accepted connection, " +
+			"every started server stopped and finished once before Loop returns, no accepted connection left open. " +
 			"distinct_nontrivial = distinct (script, variant, delay set / perturbation seed) executions in which at least one connection was offered to the accepter",
 		Assumptions: []string{
 			"Go 1.26.8 standard library and testing/synctest (quiescence = all bubble goroutines durably blocked)",
@@ -43,21 +47,24 @@ func init() {
 			"the harness Accepter, Services and vchan channel are trusted; service k is paired with connection k because the bubble is settled after every connect " +
 				"(newService is expected to be called once per accepted connection, after it was accepted, not ahead of time)",
 			"read strictly: only the end of the context (or the client) stops a server; an accepter failure alone makes Loop wait, not stop servers",
+			"N/ctx: a connection waiting in the listener's backlog when the context ends may or may not be accepted (Accept and Close of the listener race); services are then counted, not paired with connections. " +
+				"The listener wrapper that cancels the context as Accept returns is a harness device that makes 'cancel racing with an incoming connection' deterministic",
 			"a server whose channel's Close does not unblock Recv has not exited until its client closes (documented in jrpc2.Server.read); the model accounts for it",
 		},
 		Require: map[string]int64{
-			"quiescent_oracle_checks": 5000,
-			"connections_accepted":    1000,
-			"finish_calls":            500,
-			"assigner_failures":       100,
-			"handler_runs":            300,
-			"finish_status_stopped":   100,
-			"finish_status_closed":    100,
-			"loop_returned_nil":       500,
-			"loop_returned_error":     100,
-			"net_accepter_runs":       20,
-			"delay_bounded_runs":      2000,
-			"seeded_runs":             300,
+			"quiescent_oracle_checks":    5000,
+			"connections_accepted":       1000,
+			"finish_calls":               500,
+			"assigner_failures":          100,
+			"handler_runs":               300,
+			"finish_status_stopped":      100,
+			"finish_status_closed":       100,
+			"loop_returned_nil":          500,
+			"loop_returned_error":        100,
+			"net_accepter_runs":          20,
+			"net_ctx_not_in_accept_runs": 200,
+			"delay_bounded_runs":         2000,
+			"seeded_runs":                300,
 		},
 		Cases: c20cases,
 	})
